@@ -1,4 +1,5 @@
 """C08 — a file handle denotes one object for ever; stale handles stay stale."""
+import crashlib
 import seqlib
 import vlib
 
@@ -15,12 +16,17 @@ def run(ctx):
             # that denotes another object, or an entry given a handle it must not have, is a violation whatever the status
             seqlib.analyse(ctx, lines, tr, ok_drv, "C08", status_filter=lambda w: "stale" in w or "badchoice" in w,
                            always_ops={"readdirplus", "lookup", "create", "mkdir", "symlink"})
+        # a handle that a reply handed out to ANOTHER client must still denote its object after a crash right then
+        crashlib.run_obs(ctx, "C08")
     vlib.finish(
         ctx, "proof",
         "theorems: generations never decrease and strictly increase at every allocation and free; a dead handle stays dead after any history; "
         "every procedure and handle position refuses a dead handle; a created handle is fresh. Correspondence: stale bank presented to every procedure",
         "as C02, with every handle of a removed or overwritten object kept in a bank and re-presented (6% of handle arguments), malformed handles (4%), "
         "a directed scenario presenting dead handles to all 22 procedures and both RENAME positions, and one forcing inode-number reuse; "
-        "implementation-side oracle: no OK reply to a handle known dead, no handle issued twice",
+        "implementation-side oracle: no OK reply to a handle known dead, no handle issued twice; "
+        "crash-after-reveal oracle: one client creates/renames numbered names while two others LOOKUP and READDIRPLUS them on a disk that is slow "
+        "on the log header; the server is crashed at the trace position of every first reply that showed a name (un-barriered writes lost) and the "
+        "recovered server must have the name with the same handle",
         ["inode-number reuse is forced by moving the allocator's roving pointer (any pointer value is a legal allocator state)",
          "generation numbers stay below 2^64"])
